@@ -50,7 +50,51 @@ def solve(assertions, timeout_ms=60000, want_model=True):
     return str(r), None, dt
 
 
-def solve_shrunk(assertions, timeout_ms=60000):
+def solve_quantified(assertions, timeout_ms=60000, want_model=True):
+    """Quantified queries: plain z3 (MBQI) first, then quantifier elimination front ends. The first
+    definite verdict wins; `unknown` only if every route is inconclusive."""
+    routes = [lambda: z3.Solver(), lambda: z3.Then("qe2", "smt").solver(), lambda: z3.Then("qe", "smt").solver()]
+    last = "unknown"
+    total = 0.0
+    for mk in routes:
+        try:
+            s = mk()
+            s.set("timeout", timeout_ms)
+            s.add(assertions)
+            t0 = time.perf_counter()
+            r = s.check()
+            dt = time.perf_counter() - t0
+        except z3.Z3Exception:
+            continue
+        total += dt
+        STATS["queries"] += 1
+        STATS["solver_s"] += dt
+        STATS[str(r)] += 1
+        if r == z3.sat:
+            return "sat", (s.model() if want_model else None), total
+        if r == z3.unsat:
+            return "unsat", None, total
+    return last, None, total
+
+
+def solve_shrunk(assertions, timeout_ms=60000, quantified=False):
+    if quantified:
+        verdict, model, dt = solve_quantified(assertions, timeout_ms)
+        if verdict != "sat":
+            return verdict, model, dt
+        consts, _ = constants(assertions)
+        ints = [c for c in consts.values() if z3.is_int(c)]
+        for bound in (10, 100):
+            extra = [z3.And(c >= -bound, c <= bound) for c in ints]
+            v2, m2, dt2 = solve_quantified(list(assertions) + extra, min(timeout_ms, 10000))
+            dt += dt2
+            if v2 == "sat":
+                return "sat", m2, dt
+        return verdict, model, dt
+    return _solve_shrunk_qf(assertions, timeout_ms)
+
+
+def _solve_shrunk_qf(assertions, timeout_ms=60000):
     """Decide `assertions`; on sat, look for a small witness (|ints| <= 10, 100, 1000) first.
     The verdict is the unbounded one; bounding is only used to pick the witness."""
     verdict, model, dt = solve(assertions, timeout_ms)
